@@ -122,14 +122,14 @@ def random_scripts(seed, n, count, steps):
     return out
 
 
-def loop_traces(ctx, bindir, pid, version, n, scripts, tag, manual=False):
+def loop_traces(ctx, bindir, pid, version, n, scripts, tag, manual=False, throttle_ms=0):
     """Runs the real EventLoop on the scripts, validates the recorded traces. Returns (n_traces, n_events)."""
     sp = ctx.path("scripts_%s.ndjson" % tag)
     with open(sp, "w") as f:
         for s in scripts:
             f.write(json.dumps(s) + "\n")
     tp = ctx.path("traces_%s.ndjson" % tag)
-    summ = vlib.last_json(vlib.run_bin(os.path.join(bindir, "client_loop"), [version, n, sp, tp, 1 if manual else 0], timeout=1200))
+    summ = vlib.last_json(vlib.run_bin(os.path.join(bindir, "client_loop"), [version, n, sp, tp, 1 if manual else 0, throttle_ms], timeout=1200))
     body = "SPECIFICATION TraceSpec\nINVARIANTS %s\nCONSTRAINT Progress\nPOSTCONDITION TraceAccepted\nCHECK_DEADLOCK FALSE\n" % " ".join(TRACE_INV[pid])
     cfg = write_cfg(ctx, "ClientLoopTrace_%s" % tag, consts(version, n, manual, MaxMsgs=0, ChanCap=0, MaxFails=0, MaxBroker=0, QoSs="{}"), body)
     lines = open(tp).read().splitlines()
@@ -200,8 +200,13 @@ def run_property(ctx, pid):
     # 3. impl -> spec traces of the real EventLoop
     n_traces = n_events = 0
     for version in (4, 5):
-        scripts = gen_scripts(ctx, version, 2, 300 if quick else 4000)
-        t, e = loop_traces(ctx, bindir, pid, version, 2, scripts, "v%d_n2" % version)
+        scripts = gen_scripts(ctx, version, 2, 400 if quick else 4000)
+        half = len(scripts) // 2
+        t, e = loop_traces(ctx, bindir, pid, version, 2, scripts[:half], "v%d_n2" % version)
+        n_traces += t
+        n_events += e
+        # the same model, replay paced by pending_throttle (broker packets can overtake a paused replay)
+        t, e = loop_traces(ctx, bindir, pid, version, 2, scripts[half:], "v%d_n2_throttle" % version, throttle_ms=10)
         n_traces += t
         n_events += e
     for version, n in ((4, 100), (5, 100)) if quick else ((4, 100), (5, 100), (4, 3), (5, 3), (4, 65535)):
